@@ -12,6 +12,12 @@ pub struct LimitExecutor {
 impl LimitExecutor {
     #[try_stream(boxed, ok = DataChunk, error = ExecutorError)]
     pub async fn execute(self, child: BoxedExecutor) {
+        // LIMIT 0 returns nothing and does not need to run its child at all (polling it once
+        // and then ignoring what it produced also dropped an error item unseen)
+        if self.limit == 0 {
+            return Ok(());
+        }
+
         // the number of rows have been processed
         let mut processed = 0;
 
